@@ -224,6 +224,40 @@ def phase_migration(ctx, R, orc, r, n):
                 ctx.count(("migration", role, state, json.dumps(specs, sort_keys=True)), res.applied > 0)
 
 
+def phase_app_activity(ctx, R, orc, r, sample):
+    """the "afterwards" clause with a FULL congestion window (every start_frame may stop the
+    builder): a victim with streams in different lifecycle stages receives 1-RTT packets that
+    combine an ACK of specific packets it sent (each single packet, prefixes, suffixes, all) with
+    stream-control frames for its other streams (STOP_SENDING / RESET_STREAM / MAX_STREAM_DATA /
+    MAX_STREAMS / MAX_DATA / STREAM+FIN, also for streams nobody used yet); then the timer /
+    transmit / event calls are driven to termination."""
+    V = R.V
+    sids = [0, 1, 2, 3, 4, 5, 6, 7, 8, 9, 12, 13]
+    ctl = [("none", b"")]
+    for sid in sids:
+        ctl += [(f"stop-{sid}", b"\x05" + V(sid) + V(7)), (f"reset-{sid}", b"\x04" + V(sid) + V(7) + V(0)),
+                (f"msd-{sid}", b"\x11" + V(sid) + V(1 << 30)), (f"fin-{sid}", b"\x09" + V(sid))]
+    ctl += [("maxstreams", b"\x12" + V(1 << 20)), ("maxdata", b"\x10" + V(1 << 40)), ("ping", b"\x01")]
+    acks = [None] + [[i, i + 1] for i in range(0, 16)] + [[-1, None], [-2, None], [0, 2], [0, 4], [0, None], [2, None]]
+    work = [(role, state, a, c) for role in ("server", "client") for state in R.APP_STATES for a in acks for c in ctl]
+    if sample is not None:
+        # exhaustively: every single-packet ACK of the first packets x every STOP_SENDING / RESET_STREAM,
+        # for both roles; plus a sample of the rest
+        core_ctl = [c for c in ctl if c[0].startswith(("stop-", "reset-"))]
+        work = [(role, "appbusy", a, c) for role in ("server", "client") for a in acks[1:7] for c in core_ctl] \
+            + r.sample(work, sample)
+    for role, state, a, (label, frames) in work:
+        specs = [{"k": "ackctl", "ack": a, "hex": frames.hex(), "label": label}]
+        if r.random() < 0.2:
+            a2, (l2, f2) = r.choice(acks), r.choice(ctl)
+            specs.append({"k": "ackctl", "ack": a2, "hex": f2.hex(), "label": l2})
+        scn = {"role": role, "state": state, "seed": r.randrange(1000), "post": r.choice(["silent", "continue"]),
+               "qlog": r.random() < 0.1, "inputs": specs}
+        res = R.run_scenario(scn)
+        orc.judge(R, scn, res)
+        ctx.count(("app-activity", role, state, json.dumps(specs)), res.applied > 0)
+
+
 def phase_pn_order(ctx, R, orc, r, sample):
     """packet-number ORDER: a window of packet numbers of one space arrives in every permutation;
     each packet is ack-eliciting and / or acknowledges everything the victim has sent so far (also
@@ -470,7 +504,7 @@ def main(tier):
     orc = Oracle(ctx)
     t0 = time.time()
     cat = R.catalogue(r, n_random=40 if not thorough else 400)
-    all_states = R.STATES + R.SPARE_CID_STATES + R.AMP_STATES + R.ZERO_RTT_STATES
+    all_states = R.STATES + R.SPARE_CID_STATES + R.AMP_STATES + R.APP_STATES + R.ZERO_RTT_STATES
 
     # (a) datagrams
     phase_datagrams(ctx, R, orc, r, 30 if not thorough else 150, all_states)
@@ -491,6 +525,10 @@ def main(tier):
     # (b') connection-ID switching with no / one / consumed spare peer connection IDs
     phase_migration(ctx, R, orc, r, 20 if not thorough else 150)
     ctx.notes["t_migration"] = round(time.time() - t0, 1)
+
+    # (b*) application activity, full congestion window: ACKs of specific packets + stream control
+    phase_app_activity(ctx, R, orc, r, 120 if not thorough else None)
+    ctx.notes["t_app_activity"] = round(time.time() - t0, 1)
 
     # (b#) packet-number arrival order x ack-eliciting x ACK / ACK-of-ACK content
     phase_pn_order(ctx, R, orc, r, 180 if not thorough else None)
@@ -537,7 +575,13 @@ def main(tier):
     ctx.assumptions = [
         "TLS message layer (tls.Context.handle_message) raises only tls.Alert / BufferReadError, or lets a "
         "QuicConnectionError of the connection's own callbacks through (decided by the TLS checks C11/C03)",
-        "a client object receives datagrams only after connect() (API precondition, ConnInv.2)",
+        "a client object receives datagrams only after connect() (usage hypothesis shared with C09; ConnInv.2). "
+        "OUT OF SCOPE, not hidden: on the unchanged tree a client that never called connect() raises KeyError "
+        "from receive_datagram() (`self._cryptos_initial[version]` / `self._cryptos[epoch]`, dicts filled by "
+        "_initialize) for a long- or short-header packet whose destination CID equals its 8 random host-CID "
+        "bytes; every other datagram is dropped before the lookup.  That connection ID has never been put on the "
+        "wire before connect(), so no network peer can produce the input; the client states of this check start "
+        "at connect()",
         "datagrams_to_send(): the frame writers return or raise QuicPacketBuilderStop (C12/C13/C16 decide that "
         "no BufferWriteError / ValueError escapes them); QuicPacketRecovery.on_ack_received is total (C08)",
         "AEAD / header-protection / HKDF calls of decrypt_packet raise nothing but CryptoError (C02/C04); "
@@ -550,7 +594,10 @@ def main(tier):
         "Negotiation, mutated/truncated/coalesced genuine datagrams (recorded by the sim), packets built with the "
         "peer's live keys in every epoch carrying every frame type with boundary fields (catalogue of "
         f"{len(cat)} payloads), truncations at random cut points, repetitions inside a packet and as packet "
-        "trains, padded variants, Retry with valid tag and token lengths 0..1400 (and configuration.token of the same "
+        "trains, padded variants, a victim with application activity and a full congestion window (streams finished-"
+        "awaiting-ack / large response in flight / reset / stopped / unused) receiving ACKs of specific packets it "
+        "sent combined with STOP_SENDING / RESET_STREAM / MAX_STREAM_DATA / MAX_STREAMS / STREAM+FIN for its other "
+        "streams, Retry with valid tag and token lengths 0..1400 (and configuration.token of the same "
         "sizes) for max_datagram_size 1200/1350/1500 incl. Retry-after-Retry and Version Negotiation before/after "
         "Retry, packets addressed to each issued / retired / unknown connection ID of the victim "
         "while it holds no, one, several or no-longer-any spare peer connection ID (peer withholding "
